@@ -62,6 +62,7 @@ type Cfg struct {
 	Race     bool   `json:"race,omitempty"`
 	SoftSec  int    `json:"soft_sec,omitempty"`
 	NoHooks  bool   `json:"passive_hooks,omitempty"`
+	WdRel    string `json:"working_directory,omitempty"`  // working directory below the case root (default "wd"), e.g. one with blanks in its name
 	SlowErr  bool   `json:"slow_stderr_reader,omitempty"` // the subject's stderr is a pipe whose reader takes 128 kB every 10 ms
 	Quiet    bool   `json:"quiet_log,omitempty"`          // the library logs errors only (its logger's mutex is one more synchronisation the race detector sees)
 }
@@ -109,7 +110,7 @@ func execSpec(c *chk.Ctx, root string, s *spec.Spec, cfg Cfg, behav vproto.Behav
 	if cfg.SoftSec > 0 {
 		soft = time.Duration(cfg.SoftSec) * time.Second
 	}
-	cs := &run.Case{Root: root, Bin: bin, Spec: sp, Env: env, Behav: behav, KeepWd: keepWd, RunNo: runNo, Soft: soft, Hard: hard, SlowStderr: cfg.SlowErr}
+	cs := &run.Case{Root: root, Bin: bin, Spec: sp, Env: env, Behav: behav, KeepWd: keepWd, RunNo: runNo, Soft: soft, Hard: hard, SlowStderr: cfg.SlowErr, WdRel: cfg.WdRel}
 	c.Eval(1)
 	res := cs.Run()
 	if res.Signal == "killed" && res.Hang == "" && cfg.Crash == "" && !behavKillsGroup(behav) {
